@@ -24,6 +24,7 @@ func init() {
 			"C11.R1 reply-exactly-once: occurrence count of sends on the controller's chan error field along every path of every function value that flows into the queueing function's parameter (interprocedural through module callees)",
 			"C11.R1q queueing function: one send of the parameter on the chan func() field is followed by exactly one receive from the chan error field on every path",
 			"C11.R2 confinement: handler-side interface calls on the data source whose implementations (transitively) write a field that core-loop-reachable code accesses must sit in a request closure, in the start phase (not reachable from the `go` statement that starts the core loop) or after the run-done WaitGroup.Wait",
+			"C11.R2b a handler-side call of a data-source method outside a request closure and outside the start phase has no effect on the source: no implementation stores into a field of an object it did not allocate (table exceptions: Stop, ConfigureMixFraction)",
 			"C11.R2s the receiver of the chan func() calls the received closure synchronously and calls block processing synchronously in the same function",
 			"C11.R3 guard dominance (E6): forward taint from the arguments of request handlers through calls, closures, returns, request-written fields (outside per-channel types), channel messages and client-keyed maps; every index / slice bound / make size / divisor fed by such a value needs 0 <= v and v < len proven from dominating branch conditions, range loops, completed validation loops and derived equal-length invariants, in the function itself or at every place that supplies the value (call sites, closure creation, send sites, field stores, map insertions)",
 			"C11.R4 mortal peer: the hand-off send must be a select arm with an alternative; the active flag is set true only on the success branch of the start call; handlers test the flag before calls that block on per-block goroutines",
@@ -429,6 +430,38 @@ func (c *c11ctx) ruleR2() {
 			}
 		}
 	}
+	// R2b: a request that changes the source's state at all must go through the queue ("takes
+	// effect only between data blocks"), even when a mutex makes it free of data races.  For
+	// every handler-side call found above: no implementation may store into a field of an object
+	// it did not allocate itself (module types), except for the listed methods.
+	doneR2b := map[string]bool{}
+	for _, s := range sites {
+		cc := CallOf(s.in)
+		m := cc.Method.Name()
+		key := FuncName(s.fn) + " calls " + dsIface.Obj().Name() + "." + m + ": no effect on the source outside the request queue"
+		if doneR2b[key] {
+			continue
+		}
+		doneR2b[key] = true
+		if reason, ok := c11R2bExceptions[m]; ok {
+			r.OK("C11.R2b", key, p.InstrPos(s.in), "table exception: "+reason)
+			continue
+		}
+		var writes []string
+		for _, impl := range p.callees(s.in) {
+			impl = Unwrap(impl)
+			for _, w := range nonLocalFieldStores(p, impl, 6) {
+				writes = append(writes, w)
+			}
+		}
+		sort.Strings(writes)
+		writes = uniq(writes)
+		if len(writes) > 4 {
+			writes = append(writes[:4], fmt.Sprintf("… %d more", len(writes)-4))
+		}
+		r.Check(len(writes) == 0, "C11.R2b", key, p.InstrPos(s.in), "every implementation only reads (or writes objects it allocated)",
+			"the handler calls a data-source method that changes the source ("+strings.Join(writes, "; ")+") directly from the RPC goroutine: the request takes effect in the middle of block processing instead of between blocks")
+	}
 	sort.Strings(keys)
 	for _, key := range keys {
 		a := byKey[key]
@@ -461,6 +494,58 @@ func keyMethod(key string) string {
 // The conflicts tolerated are restricted per method (see allowedConflicts).
 var c11R2Exceptions = map[string]string{
 	"Stop": "Stop writes only the life-cycle state under sourceStateLock before the run-done barrier; everything after RunDoneWait runs when the core loop has exited",
+}
+
+// c11R2bExceptions: data-source methods a handler may call outside the queue although they
+// change the source, one reason each.
+var c11R2bExceptions = map[string]string{
+	"Stop":                 "ending the run is not a request that acts between blocks: it sets the life-cycle state under its mutex and waits for the core loop to finish",
+	"ConfigureMixFraction": "mix requests are handed to the per-block goroutine of the Lancero source through its own channels, which applies them between reads (by design, see the property's anchors)",
+}
+
+// nonLocalFieldStores lists stores into struct fields of module types, reachable from fn through
+// module callees, whose target object was not allocated by the storing function itself.
+func nonLocalFieldStores(p *Prog, fn *ssa.Function, depth int) []string {
+	var out []string
+	seen := map[*ssa.Function]bool{}
+	var visit func(f *ssa.Function, d int)
+	visit = func(f *ssa.Function, d int) {
+		if f == nil || seen[f] || f.Blocks == nil || d > depth {
+			return
+		}
+		pk := fnPkg(f)
+		if pk == nil || !strings.HasPrefix(pk.Path(), modPath) {
+			return
+		}
+		seen[f] = true
+		Instrs(f, func(in ssa.Instruction) {
+			if st, ok := in.(*ssa.Store); ok {
+				if o, fld, _, isF := FieldOf(st.Addr); isF {
+					root := addrRoot(st.Addr)
+					if ia, isIA := root.(*ssa.IndexAddr); isIA {
+						root = ia.X
+					}
+					switch root.(type) {
+					case *ssa.Alloc, *ssa.MakeSlice:
+						return // an object built here
+					}
+					out = append(out, o+"."+fld+" at "+p.InstrPos(st))
+				}
+				return
+			}
+			if _, isGo := in.(*ssa.Go); isGo {
+				return
+			}
+			if CallOf(in) == nil {
+				return
+			}
+			for _, c := range p.callees(in) {
+				visit(Unwrap(c), d+1)
+			}
+		})
+	}
+	visit(fn, 0)
+	return out
 }
 
 // allowedConflicts restricts a table exception to the named fields.
